@@ -237,6 +237,11 @@ Definition prog_final_weights (g : grammar) (target : Z) (ctx : sctx) (alts : li
   let* ws := prog_weights g target ctx alts in
   Ok (if forallb (fun q => Qeq_bool q 0) ws then map (prod_weight g) alts else ws).
 
+(* the depth the progressive decider steers towards: the grammar's maximum node depth, or an estimate when some symbol is unproductive *)
+Definition prog_target (g : grammar) : res Z :=
+  let* mx := max_node_depth g in
+  if mx =? INF then let* mn := min_tree_depth g in Ok (mn * zlen (g_rec g)) else Ok mx.
+
 (* choose_production_alternatives.  [key] is the type the choice is made for (the abstract class or
    the Union), [alts] the candidates as types. *)
 Definition choose (g : grammar) (k : dkind) (key : ty) (alts : list ty) (ctx : sctx) : M ty :=
@@ -266,8 +271,7 @@ Definition choose (g : grammar) (k : dkind) (key : ty) (alts : list ty) (ctx : s
            s_choice (match c with [] => baseline | _ => c end)) st'
       end
   | DProg =>
-      do* mx := lift (max_node_depth g) in
-      do* target := lift (if mx =? INF then let* mn := min_tree_depth g in Ok (mn * zlen (g_rec g)) else Ok mx) in
+      do* target := lift (prog_target g) in
       do* ws' := lift (prog_final_weights g target ctx alts) in
       on_src (fun s => choice_weighted s alts ws')
   | DDsge D =>
